@@ -9,6 +9,8 @@ from .. import gens
 from ..harness import Sub, Violation
 from ..spy import optimiser_spy
 
+QUICK_SCALE = 4  # quick budgets below are multiplied by this (kept at about half a minute on 8 processes)
+
 RULE = ("the stated families only: features scaled by 1..1000 with offsets up to 5000, a constant column, a duplicated "
         "column, duplicated samples, n == n_clusters, n_clusters == 1, batch_size == 1; default learning rates; all "
         "estimators x GEMINIs x solvers; fit, path, predict_proba, score. Every gradient reaching the optimiser is "
